@@ -41,11 +41,11 @@ type ObjState struct {
 // generation ids; (c) fault injectors (close watches, expire watches).
 type VCluster struct {
 	*fake.Cluster
-	mu      sync.Mutex
-	gen     int
-	History map[string][]ObjState          // "ns/name" -> states
-	NsHist  map[string][]map[string]string // namespace -> label sets over time (nil = deleted)
-	watches []*filterWatch
+	mu            sync.Mutex
+	gen           int
+	History       map[string][]ObjState          // "ns/name" -> states
+	NsHist        map[string][]map[string]string // namespace -> label sets over time (nil = deleted)
+	watches       []*filterWatch
 	WatchesOpened int
 }
 
